@@ -55,4 +55,16 @@ constexpr auto ym() { auto x = 2024_y / 12; x += ec::months{1}; x -= ec::months{
 static_assert(ym() == ec::year_month{ec::year{2023}, ec::November});
 constexpr auto ymwd() { auto x = ec::year_month_weekday{Y, M, ec::Thursday[5]}; x += ec::months{1}; x -= ec::years{1}; return x; }
 static_assert(ymwd().year() == ec::year{2023} && ymwd().month() == ec::March);
+// review round: inputs on which the constant evaluator is the judge of undefined behaviour
+// 075a3cf: the last four int32 day counts (tp + 4 overflowed int: these lines did not compile before the fix)
+static_assert(ec::weekday{ec::sys_days{ec::days{2147483647}}}.c_encoding() == 5);
+static_assert(ec::weekday{ec::sys_days{ec::days{2147483644}}}.c_encoding() == 2);
+static_assert(ec::weekday{ec::local_days{ec::days{-2147483647 - 1}}}.c_encoding() == 2);
+// conversions on fields that are not ok(): defined (no overflow, no read past the last-day table), values unspecified
+static_assert(ec::sys_days{ec::year_month_weekday{ec::year{-32768}, ec::month{255}, ec::weekday{255}[255]}}.time_since_epoch().count() == -12677995);
+static_assert(ec::sys_days{ec::year_month_weekday_last{Y, ec::month{0}, ec::weekday{9}[ec::last]}}.time_since_epoch().count() == 19689);
+static_assert(!ec::year_month_day{ec::year{-32768}, ec::month{1}, ec::day{1}}.ok());
+static_assert((ec::weekday{8} + ec::days{0}) == ec::Monday && (ec::weekday{255} - ec::days{-2147483647 - 1}).ok());
+static_assert((ec::year_month{ec::year{0}, ec::month{1}} + ec::months{393215}) == ec::year_month{ec::year{32767}, ec::December});
+static_assert(ec::year_month_weekday{ec::sys_days{ec::days{2146764179}}}.weekday() == ec::weekday{ec::sys_days{ec::days{2146764179}}});
 int main() {}
